@@ -168,6 +168,9 @@ theorem apiUpd_owner (f : Cand → Cand) (h : apiUpd f) (c : Cand) : (f c).owner
   rcases h with ⟨b, h⟩ | ⟨b, h⟩ | h <;> (subst h; rfl)
 theorem apiUpd_mark (f : Cand → Cand) (h : apiUpd f) (c : Cand) : (f c).mark = c.mark := by
   rcases h with ⟨b, h⟩ | ⟨b, h⟩ | h <;> (subst h; rfl)
+/-- no API-level helper makes a candidate vanish or come back -/
+theorem apiUpd_gone (f : Cand → Cand) (h : apiUpd f) (c : Cand) : (f c).gone = c.gone := by
+  rcases h with ⟨b, h⟩ | ⟨b, h⟩ | h <;> (subst h; rfl)
 
 theorem eff_taintAttempt (add : Bool) (i : Nat) (w : World) : Eff (setsTaintTo add) w (taintAttempt add i w).2 := by
   unfold taintAttempt
@@ -177,12 +180,14 @@ theorem eff_taintAttempt (add : Bool) (i : Nat) (w : World) : Eff (setsTaintTo a
     rw [heq] at h1
     split
     · exact h1
-    · have h2 : Eff (setsTaintTo add) w1 (call w1 (.patchNode i)).2 := Eff.call1 w1 _
-      split
-      · rename_i w2 heq2
-        rw [heq2] at h2
-        exact Eff.upd i _ rfl (h1.trans h2)
-      · exact h1.trans h2
+    · split
+      · exact h1
+      · have h2 : Eff (setsTaintTo add) w1 (call w1 (.patchNode i)).2 := Eff.call1 w1 _
+        split
+        · rename_i w2 heq2
+          rw [heq2] at h2
+          exact Eff.upd i _ rfl (h1.trans h2)
+        · exact h1.trans h2
   · exact h1
 
 theorem eff_taintNode (add : Bool) (i : Nat) (w : World) : Eff (setsTaintTo add) w (taintNode add i w).2 := by
@@ -200,10 +205,12 @@ theorem eff_condSetAttempt (i : Nat) (w : World) : Eff (setsCondTo true) w (cond
     rw [heq] at h1
     have h2 : Eff (setsCondTo true) w1 (call w1 (.statusNC i)).2 := Eff.call1 w1 _
     split
-    · rename_i w2 heq2
-      rw [heq2] at h2
-      exact Eff.upd i _ rfl (h1.trans h2)
-    · exact h1.trans h2
+    · exact h1
+    · split
+      · rename_i w2 heq2
+        rw [heq2] at h2
+        exact Eff.upd i _ rfl (h1.trans h2)
+      · exact h1.trans h2
   · exact h1
 
 theorem eff_condSet (i : Nat) (w : World) : Eff (setsCondTo true) w (condSet i w).2 := by
@@ -221,12 +228,14 @@ theorem eff_condClearAttempt (i : Nat) (w : World) : Eff (setsCondTo false) w (c
     rw [heq] at h1
     split
     · exact h1
-    · have h2 : Eff (setsCondTo false) w1 (call w1 (.statusNC i)).2 := Eff.call1 w1 _
-      split
-      · rename_i w2 heq2
-        rw [heq2] at h2
-        exact Eff.upd i _ rfl (h1.trans h2)
-      · exact h1.trans h2
+    · split
+      · exact h1
+      · have h2 : Eff (setsCondTo false) w1 (call w1 (.statusNC i)).2 := Eff.call1 w1 _
+        split
+        · rename_i w2 heq2
+          rw [heq2] at h2
+          exact Eff.upd i _ rfl (h1.trans h2)
+        · exact h1.trans h2
   · exact h1
 
 theorem eff_condClear (i : Nat) (w : World) : Eff (setsCondTo false) w (condClear i w).2 := by
@@ -308,7 +317,10 @@ theorem eff_delTry (ci : Nat) (snap : List RApi) : ∀ (n : Nat) (w : World), Ef
     unfold delTry
     have h1 : Eff setsDeleting w (call w (.delNC ci)).2 := Eff.call1 w _
     split
-    · rename_i w1 heq; rw [heq] at h1; exact Eff.upd ci _ rfl h1
+    · rename_i w1 heq; rw [heq] at h1
+      split
+      · exact h1
+      · exact Eff.upd ci _ rfl h1
     · rename_i w1 heq; rw [heq] at h1; exact h1
     · rename_i w1 heq; rw [heq] at h1
       split
@@ -341,7 +353,7 @@ theorem delTry_events (ci : Nat) (snap : List RApi) : ∀ (n : Nat) (w : World),
   | n + 1, w => by
     unfold delTry
     split
-    · simp
+    · split <;> simp
     · simp
     · split
       · simp
@@ -687,20 +699,21 @@ structure Keep (w w' : World) : Prop where
   len : w'.cands.length = w.cands.length
   owner : ∀ j, (candAt w' j).owner = (candAt w j).owner
   mark : ∀ j, (candAt w' j).mark = (candAt w j).mark
+  gone : ∀ j, (candAt w' j).gone = (candAt w j).gone
   live : ∀ K, (cmdAt w' K).live = (cmdAt w K).live
 
-theorem Keep.refl (w : World) : Keep w w := ⟨rfl, fun _ => rfl, fun _ => rfl, fun _ => rfl⟩
+theorem Keep.refl (w : World) : Keep w w := ⟨rfl, fun _ => rfl, fun _ => rfl, fun _ => rfl, fun _ => rfl⟩
 
 theorem Keep.trans {a b c : World} (h1 : Keep a b) (h2 : Keep b c) : Keep a c :=
   ⟨h2.len.trans h1.len, fun j => (h2.owner j).trans (h1.owner j), fun j => (h2.mark j).trans (h1.mark j),
-   fun K => (h2.live K).trans (h1.live K)⟩
+   fun j => (h2.gone j).trans (h1.gone j), fun K => (h2.live K).trans (h1.live K)⟩
 
 theorem keep_eff {w w' : World} (h : Eff apiUpd w w') : Keep w w' :=
-  ⟨h.frame.2.2.2.2.2.2, h.field (·.owner) apiUpd_owner, h.field (·.mark) apiUpd_mark,
+  ⟨h.frame.2.2.2.2.2.2, h.field (·.owner) apiUpd_owner, h.field (·.mark) apiUpd_mark, h.field (·.gone) apiUpd_gone,
    fun K => by rw [cmdAt_congr h.frame.1]⟩
 
 theorem keep_setCmd (w : World) (K : Nat) (f : Cmd → Cmd) (hf : ∀ c, (f c).live = c.live) : Keep w (setCmd w K f) := by
-  refine ⟨rfl, fun _ => rfl, fun _ => rfl, fun K' => ?_⟩
+  refine ⟨rfl, fun _ => rfl, fun _ => rfl, fun _ => rfl, fun K' => ?_⟩
   rw [cmdAt_setCmd]
   split
   · exact hf _
@@ -788,13 +801,15 @@ structure KeepC (w w' : World) : Prop where
   len : w'.cands.length = w.cands.length
   owner : ∀ j, (candAt w' j).owner = (candAt w j).owner
   mark : ∀ j, (candAt w' j).mark = (candAt w j).mark
+  gone : ∀ j, (candAt w' j).gone = (candAt w j).gone
 
-theorem KeepC.refl (w : World) : KeepC w w := ⟨rfl, fun _ => rfl, fun _ => rfl⟩
+theorem KeepC.refl (w : World) : KeepC w w := ⟨rfl, fun _ => rfl, fun _ => rfl, fun _ => rfl⟩
 theorem KeepC.trans {a b c : World} (h1 : KeepC a b) (h2 : KeepC b c) : KeepC a c :=
-  ⟨h2.len.trans h1.len, fun j => (h2.owner j).trans (h1.owner j), fun j => (h2.mark j).trans (h1.mark j)⟩
-theorem Keep.toC {w w' : World} (h : Keep w w') : KeepC w w' := ⟨h.len, h.owner, h.mark⟩
+  ⟨h2.len.trans h1.len, fun j => (h2.owner j).trans (h1.owner j), fun j => (h2.mark j).trans (h1.mark j),
+   fun j => (h2.gone j).trans (h1.gone j)⟩
+theorem Keep.toC {w w' : World} (h : Keep w w') : KeepC w w' := ⟨h.len, h.owner, h.mark, h.gone⟩
 theorem keepC_of_cands {w w' : World} (h : w'.cands = w.cands) : KeepC w w' :=
-  ⟨by rw [h], fun j => by simp [candAt, h], fun j => by simp [candAt, h]⟩
+  ⟨by rw [h], fun j => by simp [candAt, h], fun j => by simp [candAt, h], fun j => by simp [candAt, h]⟩
 
 theorem call_snd_cands {w w2 : World} {k : Key} {o : Outcome} (h : call w k = (o, w2)) : w2.cands = w.cands := by
   rw [← show (call w k).2 = w2 from by rw [h]]; rfl
@@ -851,7 +866,8 @@ def enqueue (k : Nat) : Cand → Cand := fun c => { c with mark := true, owner :
     if none of `k`'s candidates was in the queue -/
 theorem startCommand_owner_mark (k : Nat) (via : Bool) (w : World) :
     ((startCommand k via w).1 ≠ .ok ∧ KeepC w (startCommand k via w).2) ∨
-    ((startCommand k via w).1 = .ok ∧ k < w.cmds.length ∧ (∀ i ∈ (cmdAt w k).cands, (candAt w i).owner = none) ∧
+    ((startCommand k via w).1 = .ok ∧ k < w.cmds.length ∧
+      (∀ i ∈ (cmdAt w k).cands, (candAt w i).owner = none ∧ (candAt w i).gone = false) ∧
       (startCommand k via w).2.cands.length = w.cands.length ∧
       ∀ j, ((candAt (startCommand k via w).2 j).owner = (candAt w j).owner ∧
               (candAt (startCommand k via w).2 j).mark = (candAt w j).mark) ∨
@@ -864,60 +880,63 @@ theorem startCommand_owner_mark (k : Nat) (via : Bool) (w : World) :
   · rename_i hk
     split
     · exact Or.inl ⟨by simp, KeepC.refl w⟩
-    · split
-      · exact Or.inl ⟨by simp, (keep_setCmd w k (fun c => { c with started := true, createdAt := w.now }) (fun _ => rfl)).toC⟩
-      · rename_i hbusy
-        generalize hm : markAll (cmdAt w k).cands (setCmd w k fun c => { c with started := true, createdAt := w.now }) = ma
-        obtain ⟨marked, anyErr, w1⟩ := ma
-        have hk0 : Keep w (setCmd w k fun c => { c with started := true, createdAt := w.now }) :=
-          keep_setCmd w k (fun c => { c with started := true, createdAt := w.now }) (fun _ => rfl)
-        have hk1 : KeepC w w1 := by
-          have := eff_markAll (cmdAt w k).cands (setCmd w k fun c => { c with started := true, createdAt := w.now })
-          rw [hm] at this
-          exact (hk0.trans (keep_eff this)).toC
-        have hsub : ∀ j ∈ marked, j ∈ (cmdAt w k).cands := by
-          have := markAll_subset (cmdAt w k).cands (setCmd w k fun c => { c with started := true, createdAt := w.now })
-          rw [hm] at this
-          exact this
-        simp only
-        split
-        · exact Or.inl ⟨by simp, hk1⟩
-        · generalize hc : createAll k (cmdAt w k).repls.length 0 (setCmd w1 k fun c => { c with live := marked }) = ca
-          obtain ⟨ce, w3⟩ := ca
-          have hk3 : KeepC w w3 := by
-            have := createAll_cands k (cmdAt w k).repls.length 0 (setCmd w1 k fun c => { c with live := marked })
-            rw [hc] at this
-            exact hk1.trans (keepC_of_cands (by simpa using this))
-          cases ce with
-          | true => exact Or.inl ⟨by simp, hk3⟩
-          | false =>
-            right
-            simp only
-            have hlt : k < w.cmds.length := by
-              simp only [ge_iff_le, Bool.or_eq_true, decide_eq_true_eq, not_or, Nat.not_le] at hk
-              exact hk.1
-            have hfree : ∀ i ∈ (cmdAt w k).cands, (candAt w i).owner = none := by
-              intro i hi
-              simp only [List.any_eq_true, not_exists, not_and, Bool.not_eq_true] at hbusy
-              have := hbusy i hi
-              simpa [owned] using this
-            refine ⟨trivial, hlt, hfree, ?_, fun j => ?_⟩
-            · rw [(foldl_setCand_frame _ _ _).2.1]; simpa using hk3.len
-            · have hat := foldl_setCand_at (enqueue k) (fun _ => rfl) marked
-                (setCmd w3 k fun c => { c with repls := c.repls.map fun r => { r with named := true } }) j
-              have hfold : (fun w i => setCand w i fun c => { c with mark := true, owner := some k }) =
-                    (fun w i => setCand w i (enqueue k)) := rfl
-              rw [hfold]
-              simp only [setCmd_cands, candAt_setCmd] at hat
-              by_cases hj : j ∈ marked ∧ j < w3.cands.length
-              · have e := hat
-                simp only [hj, and_self, if_true] at e
-                rw [e]
-                exact Or.inr ⟨hsub j hj.1, rfl, rfl⟩
-              · have e := hat
-                simp only [hj, if_false] at e
-                rw [e]
-                exact Or.inl ⟨hk3.owner j, hk3.mark j⟩
+    · rename_i hgone
+      split
+      · exact Or.inl ⟨by simp, KeepC.refl w⟩
+      · split
+        · exact Or.inl ⟨by simp, (keep_setCmd w k (fun c => { c with started := true, createdAt := w.now }) (fun _ => rfl)).toC⟩
+        · rename_i hbusy
+          generalize hm : markAll (cmdAt w k).cands (setCmd w k fun c => { c with started := true, createdAt := w.now }) = ma
+          obtain ⟨marked, anyErr, w1⟩ := ma
+          have hk0 : Keep w (setCmd w k fun c => { c with started := true, createdAt := w.now }) :=
+            keep_setCmd w k (fun c => { c with started := true, createdAt := w.now }) (fun _ => rfl)
+          have hk1 : KeepC w w1 := by
+            have := eff_markAll (cmdAt w k).cands (setCmd w k fun c => { c with started := true, createdAt := w.now })
+            rw [hm] at this
+            exact (hk0.trans (keep_eff this)).toC
+          have hsub : ∀ j ∈ marked, j ∈ (cmdAt w k).cands := by
+            have := markAll_subset (cmdAt w k).cands (setCmd w k fun c => { c with started := true, createdAt := w.now })
+            rw [hm] at this
+            exact this
+          simp only
+          split
+          · exact Or.inl ⟨by simp, hk1⟩
+          · generalize hc : createAll k (cmdAt w k).repls.length 0 (setCmd w1 k fun c => { c with live := marked }) = ca
+            obtain ⟨ce, w3⟩ := ca
+            have hk3 : KeepC w w3 := by
+              have := createAll_cands k (cmdAt w k).repls.length 0 (setCmd w1 k fun c => { c with live := marked })
+              rw [hc] at this
+              exact hk1.trans (keepC_of_cands (by simpa using this))
+            cases ce with
+            | true => exact Or.inl ⟨by simp, hk3⟩
+            | false =>
+              right
+              simp only
+              have hlt : k < w.cmds.length := by
+                simp only [ge_iff_le, Bool.or_eq_true, decide_eq_true_eq, not_or, Nat.not_le] at hk
+                exact hk.1
+              have hfree : ∀ i ∈ (cmdAt w k).cands, (candAt w i).owner = none ∧ (candAt w i).gone = false := by
+                intro i hi
+                simp only [List.any_eq_true, not_exists, not_and, Bool.not_eq_true] at hbusy hgone
+                have := hbusy i hi
+                exact ⟨by simpa [owned] using this, hgone i hi⟩
+              refine ⟨trivial, hlt, hfree, ?_, fun j => ?_⟩
+              · rw [(foldl_setCand_frame _ _ _).2.1]; simpa using hk3.len
+              · have hat := foldl_setCand_at (enqueue k) (fun _ => rfl) marked
+                  (setCmd w3 k fun c => { c with repls := c.repls.map fun r => { r with named := true } }) j
+                have hfold : (fun w i => setCand w i fun c => { c with mark := true, owner := some k }) =
+                      (fun w i => setCand w i (enqueue k)) := rfl
+                rw [hfold]
+                simp only [setCmd_cands, candAt_setCmd] at hat
+                by_cases hj : j ∈ marked ∧ j < w3.cands.length
+                · have e := hat
+                  simp only [hj, and_self, if_true] at e
+                  rw [e]
+                  exact Or.inr ⟨hsub j hj.1, rfl, rfl⟩
+                · have e := hat
+                  simp only [hj, if_false] at e
+                  rw [e]
+                  exact Or.inl ⟨hk3.owner j, hk3.mark j⟩
 
 
 /-! ### a quiet fault plan: no fault applies to any call from now on -/
@@ -965,63 +984,89 @@ theorem retry_ok (n : Nat) (body : World → Outcome × World) (w : World) (h : 
   · rename_i w' heq; rw [heq] at h; cases h
   · rfl
 
-/-- under a quiet plan `RequireNoScheduleTaint(…, false)` removes the taint and reports no error -/
+theorem retry_noerr (n : Nat) (body : World → Outcome × World) (w : World) (h : (body w).1 ≠ .err) :
+    retry (n + 1) body w = body w := by
+  unfold retry
+  split
+  · rename_i w' heq; rw [heq] at h; exact absurd rfl h
+  · rfl
+
+theorem candAt_call (w : World) (k : Key) (i : Nat) : candAt (call w k).2 i = candAt w i := rfl
+
+/-- under a quiet plan `RequireNoScheduleTaint(…, false)` reports no error and removes the taint of a node that still
+    exists (for a node that is gone the Get answers NotFound, which is not an error) -/
 theorem untaint_quiet {w : World} (hq : Quiet w) (hr : 0 < w.retrySteps) (i : Nat) :
-    (taintNode false i w).1 = false ∧ (candAt (taintNode false i w).2 i).taint = false := by
+    (taintNode false i w).1 = false ∧
+      ((candAt w i).gone = false → (candAt (taintNode false i w).2 i).taint = false) := by
   obtain ⟨n, hn⟩ : ∃ n, w.retrySteps = n + 1 := ⟨w.retrySteps - 1, by omega⟩
-  have hatt : (taintAttempt false i w).1 = .ok ∧ (candAt (taintAttempt false i w).2 i).taint = false := by
+  have hatt : (taintAttempt false i w).1 ≠ .err ∧
+      ((candAt w i).gone = false → (candAt (taintAttempt false i w).2 i).taint = false) := by
     unfold taintAttempt
     rw [call_eq_ok hq]
     simp only
     split
-    · rename_i ht; exact ⟨rfl, ht⟩
-    · have hq1 := (quiet_call hq (.getNode i)).2
-      rw [call_eq_ok hq1]
-      simp only
-      refine ⟨trivial, ?_⟩
-      rw [candAt_setCand]
-      split
-      · rfl
-      · rename_i ht hn
-        -- out of range: the default candidate carries no taint
-        have : ¬ i < (call (call w (.getNode i)).2 (.patchNode i)).2.cands.length := by simpa using hn
-        simp [candAt, List.getElem?_eq_none (Nat.le_of_not_lt this)]
+    · rename_i hg
+      rw [candAt_call] at hg
+      exact ⟨by simp, fun h => by rw [h] at hg; cases hg⟩
+    · split
+      · rename_i ht; exact ⟨by simp, fun _ => ht⟩
+      · have hq1 := (quiet_call hq (.getNode i)).2
+        rw [call_eq_ok hq1]
+        simp only
+        refine ⟨by simp, fun _ => ?_⟩
+        rw [candAt_setCand]
+        split
+        · rfl
+        · rename_i ht hn
+          -- out of range: the default candidate carries no taint
+          have : ¬ i < (call (call w (.getNode i)).2 (.patchNode i)).2.cands.length := by simpa using hn
+          simp [candAt, List.getElem?_eq_none (Nat.le_of_not_lt this)]
   unfold taintNode
-  rw [hn, retry_ok n _ w hatt.1]
+  rw [hn, retry_noerr n _ w hatt.1]
   generalize taintAttempt false i w = r at hatt
   obtain ⟨o, w'⟩ := r
   simp only at hatt
   obtain ⟨ho, ht⟩ := hatt
-  subst ho
-  exact ⟨rfl, ht⟩
+  cases o with
+  | err => exact absurd rfl ho
+  | ok => exact ⟨rfl, ht⟩
+  | notFound => exact ⟨rfl, ht⟩
 
 theorem clear_quiet {w : World} (hq : Quiet w) (hr : 0 < w.retrySteps) (i : Nat) :
-    (condClear i w).1 = false ∧ (candAt (condClear i w).2 i).cond = false := by
+    (condClear i w).1 = false ∧
+      ((candAt w i).gone = false → (candAt (condClear i w).2 i).cond = false) := by
   obtain ⟨n, hn⟩ : ∃ n, w.retrySteps = n + 1 := ⟨w.retrySteps - 1, by omega⟩
-  have hatt : (condClearAttempt i w).1 = .ok ∧ (candAt (condClearAttempt i w).2 i).cond = false := by
+  have hatt : (condClearAttempt i w).1 ≠ .err ∧
+      ((candAt w i).gone = false → (candAt (condClearAttempt i w).2 i).cond = false) := by
     unfold condClearAttempt
     rw [call_eq_ok hq]
     simp only
     split
-    · rename_i ht; exact ⟨rfl, ht⟩
-    · have hq1 := (quiet_call hq (.getNC i)).2
-      rw [call_eq_ok hq1]
-      simp only
-      refine ⟨trivial, ?_⟩
-      rw [candAt_setCand]
-      split
-      · rfl
-      · rename_i ht hn
-        have : ¬ i < (call (call w (.getNC i)).2 (.statusNC i)).2.cands.length := by simpa using hn
-        simp [candAt, List.getElem?_eq_none (Nat.le_of_not_lt this)]
+    · rename_i hg
+      rw [candAt_call] at hg
+      exact ⟨by simp, fun h => by rw [h] at hg; cases hg⟩
+    · split
+      · rename_i ht; exact ⟨by simp, fun _ => ht⟩
+      · have hq1 := (quiet_call hq (.getNC i)).2
+        rw [call_eq_ok hq1]
+        simp only
+        refine ⟨by simp, fun _ => ?_⟩
+        rw [candAt_setCand]
+        split
+        · rfl
+        · rename_i ht hn
+          have : ¬ i < (call (call w (.getNC i)).2 (.statusNC i)).2.cands.length := by simpa using hn
+          simp [candAt, List.getElem?_eq_none (Nat.le_of_not_lt this)]
   unfold condClear
-  rw [hn, retry_ok n _ w hatt.1]
+  rw [hn, retry_noerr n _ w hatt.1]
   generalize condClearAttempt i w = r at hatt
   obtain ⟨o, w'⟩ := r
   simp only at hatt
   obtain ⟨ho, ht⟩ := hatt
-  subst ho
-  exact ⟨rfl, ht⟩
+  cases o with
+  | err => exact absurd rfl ho
+  | ok => exact ⟨rfl, ht⟩
+  | notFound => exact ⟨rfl, ht⟩
 
 
 /-! ### the cleanup pass -/
@@ -1051,7 +1096,7 @@ theorem eff_cleanup (w : World) : Eff tcUpd w (cleanup w).2 := by
       cases e2 <;> exact h1.trans h2
 
 theorem untaintAllE_quiet : ∀ (l : List Nat) (w : World), Quiet w → 0 < w.retrySteps →
-    (untaintAllE l w).1 = false ∧ ∀ i ∈ l, (candAt (untaintAllE l w).2 i).taint = false
+    (untaintAllE l w).1 = false ∧ ∀ i ∈ l, (candAt w i).gone = false → (candAt (untaintAllE l w).2 i).taint = false
   | [], w, _, _ => by simp [untaintAllE]
   | i :: is, w, hq, hr => by
     unfold untaintAllE
@@ -1069,15 +1114,15 @@ theorem untaintAllE_quiet : ∀ (l : List Nat) (w : World), Quiet w → 0 < w.re
     obtain ⟨e2, w2⟩ := r2
     simp only at h3 h4 he2 ⊢
     subst h3
-    refine ⟨rfl, fun j hj => ?_⟩
+    refine ⟨rfl, fun j hj hg => ?_⟩
     simp only [List.mem_cons] at hj
     rcases hj with e | e
     · subst e
-      exact Eff.candPred (p := fun c => c.taint = false) (fun f hf c hc => by rw [hf]) he2 j h2
-    · exact h4 j e
+      exact Eff.candPred (p := fun c => c.taint = false) (fun f hf c hc => by rw [hf]) he2 j (h2 hg)
+    · exact h4 j e (by rw [he.field (·.gone) (fun f hf c => by rw [hf]) j]; exact hg)
 
 theorem clearAllE_quiet : ∀ (l : List Nat) (w : World), Quiet w → 0 < w.retrySteps →
-    (clearAllE l w).1 = false ∧ ∀ i ∈ l, (candAt (clearAllE l w).2 i).cond = false
+    (clearAllE l w).1 = false ∧ ∀ i ∈ l, (candAt w i).gone = false → (candAt (clearAllE l w).2 i).cond = false
   | [], w, _, _ => by simp [clearAllE]
   | i :: is, w, hq, hr => by
     unfold clearAllE
@@ -1095,23 +1140,23 @@ theorem clearAllE_quiet : ∀ (l : List Nat) (w : World), Quiet w → 0 < w.retr
     obtain ⟨e2, w2⟩ := r2
     simp only at h3 h4 he2 ⊢
     subst h3
-    refine ⟨rfl, fun j hj => ?_⟩
+    refine ⟨rfl, fun j hj hg => ?_⟩
     simp only [List.mem_cons] at hj
     rcases hj with e | e
     · subst e
-      exact Eff.candPred (p := fun c => c.cond = false) (fun f hf c hc => by rw [hf]) he2 j h2
-    · exact h4 j e
+      exact Eff.candPred (p := fun c => c.cond = false) (fun f hf c hc => by rw [hf]) he2 j (h2 hg)
+    · exact h4 j e (by rw [he.field (·.gone) (fun f hf c => by rw [hf]) j]; exact hg)
 
 theorem mem_outdatedFrom : ∀ (cs : List Cand) (b i : Nat) (c : Cand), cs[i]? = some c →
-    c.owner = none → markObs c = false → b + i ∈ outdatedFrom cs b
-  | [], _, _, _, h, _, _ => by simp at h
-  | c0 :: t, b, 0, c, h, ho, hm => by
+    c.owner = none → markObs c = false → c.gone = false → b + i ∈ outdatedFrom cs b
+  | [], _, _, _, h, _, _, _ => by simp at h
+  | c0 :: t, b, 0, c, h, ho, hm, hg => by
     simp only [List.getElem?_cons_zero, Option.some.injEq] at h
     subst h
-    simp [outdatedFrom, ho, hm]
-  | c0 :: t, b, i + 1, c, h, ho, hm => by
+    simp [outdatedFrom, ho, hm, hg]
+  | c0 :: t, b, i + 1, c, h, ho, hm, hg => by
     simp only [List.getElem?_cons_succ] at h
-    have ih := mem_outdatedFrom t (b + 1) i c h ho hm
+    have ih := mem_outdatedFrom t (b + 1) i c h ho hm hg
     have e : b + 1 + i = b + (i + 1) := by omega
     rw [e] at ih
     unfold outdatedFrom
@@ -1119,10 +1164,12 @@ theorem mem_outdatedFrom : ∀ (cs : List Cand) (b i : Nat) (c : Cand), cs[i]? =
     · exact ih
     · exact List.mem_cons_of_mem _ ih
 
-/-- an undisturbed cleanup pass returns every node that is neither in the queue nor marked / deleting to service -/
+/-- an undisturbed cleanup pass returns every node that still exists and is neither in the queue nor marked / deleting
+    to service -/
 theorem cleanup_quiet {w : World} (hq : Quiet w) (hr : 0 < w.retrySteps) (hs : synced w = true) :
     (cleanup w).1 = .ok ∧
     ∀ i, i < w.cands.length → (candAt w i).owner = none → (candAt w i).mark = false → (candAt w i).deleting = false →
+      (candAt w i).gone = false →
       (candAt (cleanup w).2 i).taint = false ∧ (candAt (cleanup w).2 i).cond = false := by
   unfold cleanup
   simp only [hs, Bool.not_true, Bool.false_eq_true, if_false]
@@ -1142,16 +1189,16 @@ theorem cleanup_quiet {w : World} (hq : Quiet w) (hr : 0 < w.retrySteps) (hs : s
   simp only at h3 h4 he2
   subst h3
   simp only
-  refine ⟨trivial, fun i hi ho hm hd => ?_⟩
+  refine ⟨trivial, fun i hi ho hm hd hg => ?_⟩
   have hmem : i ∈ outdatedFrom w.cands 0 := by
     have hc : w.cands[i]? = some (candAt w i) := by
       simp [candAt, List.getElem?_eq_getElem hi]
-    have := mem_outdatedFrom w.cands 0 i (candAt w i) hc ho (by simp [markObs, hm, hd])
+    have := mem_outdatedFrom w.cands 0 i (candAt w i) hc ho (by simp [markObs, hm, hd]) hg
     simpa using this
-  refine ⟨?_, h4 i hmem⟩
+  refine ⟨?_, h4 i hmem (by rw [he1.field (·.gone) (fun f hf c => by rw [hf]) i]; exact hg)⟩
   have := he2.field (·.taint) (fun f hf c => by rw [hf]) i
   rw [this]
-  exact h2 i hmem
+  exact h2 i hmem hg
 
 
 /-! ### bookkeeping invariants of the commands -/
@@ -1280,29 +1327,31 @@ theorem carried_startCommand (k : Nat) (via : Bool) (w : World) : Carried w (sta
   · exact Carried.refl w
   · split
     · exact Carried.refl w
-    · have h0 : Carried w (setCmd w k fun c => { c with started := true, createdAt := w.now }) :=
-        carried_setCmd_plain w k _ (fun _ => rfl) (fun _ => rfl)
-      split
-      · exact h0
-      · have h1 := carried_eff (eff_markAll (cmdAt w k).cands (setCmd w k fun c => { c with started := true, createdAt := w.now }))
-        generalize markAll (cmdAt w k).cands (setCmd w k fun c => { c with started := true, createdAt := w.now }) = ma at h1
-        obtain ⟨marked, anyErr, w1⟩ := ma
-        simp only at h1 ⊢
+    · split
+      · exact Carried.refl w
+      · have h0 : Carried w (setCmd w k fun c => { c with started := true, createdAt := w.now }) :=
+          carried_setCmd_plain w k _ (fun _ => rfl) (fun _ => rfl)
         split
-        · exact h0.trans h1
-        · have h2 : Carried w1 (setCmd w1 k fun c => { c with live := marked }) :=
-            carried_setCmd_plain w1 k _ (fun _ => rfl) (fun _ => rfl)
-          have h3 := carried_createAll k (cmdAt w k).repls.length 0 (setCmd w1 k fun c => { c with live := marked })
-          generalize createAll k (cmdAt w k).repls.length 0 (setCmd w1 k fun c => { c with live := marked }) = ca at h3
-          obtain ⟨ce, w3⟩ := ca
-          simp only at h3
-          cases ce with
-          | true => exact ((h0.trans h1).trans h2).trans h3
-          | false =>
-            simp only
-            have h4 : Carried w3 (setCmd w3 k fun c => { c with repls := c.repls.map fun r => { r with named := true } }) :=
-              carried_setCmd_map w3 k _ (fun r hr => ⟨hr.latch, hr.init, hr.ever, hr.exist⟩) (fun r h => h)
-            exact ((((h0.trans h1).trans h2).trans h3).trans h4).trans (carried_foldl_setCand _ _ _)
+        · exact h0
+        · have h1 := carried_eff (eff_markAll (cmdAt w k).cands (setCmd w k fun c => { c with started := true, createdAt := w.now }))
+          generalize markAll (cmdAt w k).cands (setCmd w k fun c => { c with started := true, createdAt := w.now }) = ma at h1
+          obtain ⟨marked, anyErr, w1⟩ := ma
+          simp only at h1 ⊢
+          split
+          · exact h0.trans h1
+          · have h2 : Carried w1 (setCmd w1 k fun c => { c with live := marked }) :=
+              carried_setCmd_plain w1 k _ (fun _ => rfl) (fun _ => rfl)
+            have h3 := carried_createAll k (cmdAt w k).repls.length 0 (setCmd w1 k fun c => { c with live := marked })
+            generalize createAll k (cmdAt w k).repls.length 0 (setCmd w1 k fun c => { c with live := marked }) = ca at h3
+            obtain ⟨ce, w3⟩ := ca
+            simp only at h3
+            cases ce with
+            | true => exact ((h0.trans h1).trans h2).trans h3
+            | false =>
+              simp only
+              have h4 : Carried w3 (setCmd w3 k fun c => { c with repls := c.repls.map fun r => { r with named := true } }) :=
+                carried_setCmd_map w3 k _ (fun r hr => ⟨hr.latch, hr.init, hr.ever, hr.exist⟩) (fun r h => h)
+              exact ((((h0.trans h1).trans h2).trans h3).trans h4).trans (carried_foldl_setCand _ _ _)
 
 
 theorem latch_replOK {r r' : Repl} (h : Latch r r') (hr : ReplOK r) : ReplOK r' := by
@@ -1443,6 +1492,41 @@ theorem carried_restart (w : World) : Carried w (restart w) := by
   exact (carried_cmds_eq (w := w) (w' := { w with cands := w.cands.map fun c => { c with mark := false, owner := none } }) rfl).trans
     (carried_syncAll _)
 
+/-! ### a candidate goes away on its own -/
+
+theorem candGone_cmds (i : Nat) (w : World) : (candGone i w).2.cmds = w.cmds := by
+  unfold candGone
+  split <;> rfl
+
+/-- the vanishing of a candidate touches that candidate only, never its queue entry; the commands are untouched -/
+theorem candGone_cand (i : Nat) (w : World) (j : Nat) :
+    (candAt (candGone i w).2 j).owner = (candAt w j).owner ∧
+    (j ≠ i → candAt (candGone i w).2 j = candAt w j) ∧
+    ((candAt w j).gone = true → (candAt (candGone i w).2 j).gone = true) := by
+  unfold candGone
+  split
+  · simp only
+    rw [candAt_setCand]
+    split
+    · rename_i h
+      exact ⟨rfl, fun hne => absurd h.1 hne, fun _ => rfl⟩
+    · exact ⟨rfl, fun _ => rfl, id⟩
+  · exact ⟨rfl, fun _ => rfl, id⟩
+
+/-- what is left of a candidate that went away: nothing carries a taint, a condition or a deletion mark -/
+theorem candGone_self (i : Nat) (w : World) (h : (candGone i w).1 = .ok) :
+    (candAt w i).gone = false ∧ candAt (candGone i w).2 i = vanishCand (candAt w i) := by
+  unfold candGone at h ⊢
+  split
+  · rename_i hc
+    simp only [Bool.and_eq_true, decide_eq_true_eq, Bool.not_eq_true'] at hc
+    refine ⟨hc.2, ?_⟩
+    simp only
+    rw [candAt_setCand]
+    simp [hc.1]
+  · rename_i hc
+    simp [hc] at h
+
 theorem carried_reconcile (k on : Nat) (w : World) : Carried w (reconcile k on w).2.2 := by
   unfold reconcile
   simp only
@@ -1461,6 +1545,7 @@ theorem carried_step (w : World) (s : Step) : Carried w (step w s).2.2 := by
     · exact carried_cmds_eq rfl
     · exact h0
   | env op k i => exact h0.trans (carried_envStep op k i _)
+  | candGone i => exact h0.trans (carried_cmds_eq (candGone_cmds i _))
   | sync => exact h0.trans (carried_syncAll _)
   | restart => exact h0.trans (carried_restart _)
   | cleanup => exact h0.trans (carried_eff (eff_cleanup _))
@@ -1579,7 +1664,7 @@ theorem course_failed_issued {ci : Nat} {w : World} {out : Res × List DelEvent 
 
 
 theorem untaintAll_quiet : ∀ (l : List Nat) (w : World), Quiet w → 0 < w.retrySteps →
-    ∀ i ∈ l, (candAt (untaintAll l w) i).taint = false
+    ∀ i ∈ l, (candAt w i).gone = false → (candAt (untaintAll l w) i).taint = false
   | [], _, _, _ => by simp
   | i :: is, w, hq, hr => by
     unfold untaintAll
@@ -1589,15 +1674,15 @@ theorem untaintAll_quiet : ∀ (l : List Nat) (w : World), Quiet w → 0 < w.ret
     have hr1 : 0 < (taintNode false i w).2.retrySteps := by rw [he.frame.2.2.2.2.1]; exact hr
     have ih := untaintAll_quiet is (taintNode false i w).2 hq1 hr1
     have he2 := eff_untaintAll is (taintNode false i w).2
-    intro j hj
+    intro j hj hg
     simp only [List.mem_cons] at hj
     rcases hj with e | e
     · subst e
-      exact Eff.candPred (p := fun c => c.taint = false) (fun f hf c hc => by rw [hf]) he2 j h2
-    · exact ih j e
+      exact Eff.candPred (p := fun c => c.taint = false) (fun f hf c hc => by rw [hf]) he2 j (h2 hg)
+    · exact ih j e (by rw [he.field (·.gone) (fun f hf c => by rw [hf]) j]; exact hg)
 
 theorem clearAll_quiet : ∀ (l : List Nat) (w : World), Quiet w → 0 < w.retrySteps →
-    ∀ i ∈ l, (candAt (clearAll l w) i).cond = false
+    ∀ i ∈ l, (candAt w i).gone = false → (candAt (clearAll l w) i).cond = false
   | [], _, _, _ => by simp
   | i :: is, w, hq, hr => by
     unfold clearAll
@@ -1607,23 +1692,25 @@ theorem clearAll_quiet : ∀ (l : List Nat) (w : World), Quiet w → 0 < w.retry
     have hr1 : 0 < (condClear i w).2.retrySteps := by rw [he.frame.2.2.2.2.1]; exact hr
     have ih := clearAll_quiet is (condClear i w).2 hq1 hr1
     have he2 := eff_clearAll is (condClear i w).2
-    intro j hj
+    intro j hj hg
     simp only [List.mem_cons] at hj
     rcases hj with e | e
     · subst e
-      exact Eff.candPred (p := fun c => c.cond = false) (fun f hf c hc => by rw [hf]) he2 j h2
-    · exact ih j e
+      exact Eff.candPred (p := fun c => c.cond = false) (fun f hf c hc => by rw [hf]) he2 j (h2 hg)
+    · exact ih j e (by rw [he.field (·.gone) (fun f hf c => by rw [hf]) j]; exact hg)
 
 /-- the API part of the rollback when no fault interferes: every live candidate loses the taint and the condition -/
 theorem failCommand_quiet (K : Nat) {w : World} (hq : Quiet w) (hr : 0 < w.retrySteps) :
-    ∀ j ∈ (cmdAt w K).live, (candAt (failCommand K w) j).taint = false ∧ (candAt (failCommand K w) j).cond = false := by
-  intro j hj
+    ∀ j ∈ (cmdAt w K).live, (candAt w j).gone = false →
+      (candAt (failCommand K w) j).taint = false ∧ (candAt (failCommand K w) j).cond = false := by
+  intro j hj hg
   rw [failCommand_eq, foldl_setCand_at release (fun _ => rfl)]
   have he1 := eff_untaintAll (cmdAt w K).live w
   have hq1 := quiet_eff he1 hq
   have hr1 : 0 < (untaintAll (cmdAt w K).live w).retrySteps := by rw [he1.frame.2.2.2.2.1]; exact hr
-  have ht := untaintAll_quiet (cmdAt w K).live w hq hr j hj
+  have ht := untaintAll_quiet (cmdAt w K).live w hq hr j hj hg
   have hc := clearAll_quiet (cmdAt w K).live _ hq1 hr1 j hj
+    (by rw [he1.field (·.gone) (fun f hf c => by rw [hf]) j]; exact hg)
   have he2 := eff_clearAll (cmdAt w K).live (untaintAll (cmdAt w K).live w)
   have ht2 : (candAt (clearAll (cmdAt w K).live (untaintAll (cmdAt w K).live w)) j).taint = false := by
     rw [he2.field (·.taint) (fun f hf c => by rw [hf]) j]; exact ht
@@ -1637,11 +1724,13 @@ theorem quiet_setCmd {w : World} (h : Quiet w) (K : Nat) (f : Cmd → Cmd) : Qui
 theorem course_failed_quiet {ci : Nat} {w : World} {out : Res × List DelEvent × World} (h : Course ci w out)
     (hf : out.1 = .failed) (hq : Quiet w) (hr : 0 < w.retrySteps) :
     ∃ K, (candAt w ci).owner = some K ∧
-      ∀ j ∈ (cmdAt w K).live, (candAt out.2.2 j).taint = false ∧ (candAt out.2.2 j).cond = false := by
+      ∀ j ∈ (cmdAt w K).live, (candAt w j).gone = false →
+        (candAt out.2.2 j).taint = false ∧ (candAt out.2.2 j).cond = false := by
   have aux : ∀ (K : Nat) (w' : World) (f : Cmd → Cmd), Keep w w' → Quiet w' → 0 < w'.retrySteps →
-      ∀ j ∈ (cmdAt w K).live, (candAt (failCommand K w') j).taint = false ∧ (candAt (failCommand K w') j).cond = false := by
-    intro K w' _ hk hq' hr' j hj
-    exact failCommand_quiet K hq' hr' j (by rw [hk.live]; exact hj)
+      ∀ j ∈ (cmdAt w K).live, (candAt w j).gone = false →
+        (candAt (failCommand K w') j).taint = false ∧ (candAt (failCommand K w') j).cond = false := by
+    intro K w' _ hk hq' hr' j hj hg
+    exact failCommand_quiet K hq' hr' j (by rw [hk.live]; exact hj) (by rw [hk.gone]; exact hg)
   cases h with
   | nocmd _ => cases hf
   | gone K repls' w1 hK hw =>
